@@ -95,7 +95,8 @@ pub fn main(args: &[String]) -> i32 {
                 Some(x) => x,
                 None => return fail("identity request (v0) cannot be generated".into(), json!("request"), J::Null),
             };
-            match verify_credentials(&pio, context, &alist, EXPIRY, &ip_secret_key, &ip_cdi_secret_key) {
+            // the provider knows all of its revokers, not only the ones the holder chose
+            match verify_credentials(&pio, if idx % 2 == 0 { context_all } else { context }, &alist, EXPIRY, &ip_secret_key, &ip_cdi_secret_key) {
                 Ok((sig, icdi)) => {
                     if verify_initial_cdi(&ip_info, &icdi, EXPIRY) != Ok(()) {
                         return fail("initial account credential issued by the provider is accepted by the chain".into(), json!("ok"), json!("rejected"));
@@ -109,7 +110,7 @@ pub fn main(args: &[String]) -> i32 {
                 Some(x) => x,
                 None => return fail("identity request (v1) cannot be generated".into(), json!("request"), J::Null),
             };
-            match verify_credentials_v1(&pio, context, &alist, &ip_secret_key) {
+            match verify_credentials_v1(&pio, if idx % 2 == 0 { context_all } else { context }, &alist, &ip_secret_key) {
                 Ok(sig) => IdObj::V1(IdentityObjectV1 { pre_identity_object: pio, alist: alist.clone(), signature: sig }),
                 Err(e) => return fail("identity request (v1) accepted by the provider".into(), json!("ok"), json!(format!("{:?}", e))),
             }
